@@ -41,7 +41,7 @@ template <template <class> class C, template <class> class R>
 struct Cyc {
     typedef amgcl::amg<Backend, rec<C>::template type, R> AMG;
     static typename AMG::params params(const Hdr &h, const RelaxPrm &rp, const Tail &t) {
-        typename AMG::params p; set_prm<AMG>(p, h); set_relax(p.relax, rp); set_over(p.coarsening, over_interp_of_kind0, 0);
+        typename AMG::params p; set_prm<AMG>(p, h); set_relax(p.relax, rp); set_over(p.coarsening, over_of(h), 0);
         p.npre = (unsigned)t.npre; p.npost = (unsigned)t.npost; p.ncycle = (unsigned)t.ncycle; p.pre_cycles = (unsigned)t.pre_cycles;
         return p;
     }
@@ -87,7 +87,24 @@ struct Cyc {
                         Dense Ad = dense(h.A); Dense E = dmul(B, Ad, n); for (long i = 0; i < n; ++i) for (long j = 0; j < n; ++j) E[i][j] = (i == j ? Q(1) : Q(0)) - E[i][j];
                         Dense AE = dmul(Ad, E, n), Et = dtrans(E, n), EAE = dmul(Et, AE, n), D(n, std::vector<Q>(n));
                         for (long i = 0; i < n; ++i) for (long j = 0; j < n; ++j) D[i][j] = Ad[i][j] - EAE[i][j];
-                        if (!is_spd(D)) r.fail("stationary iteration is not a contraction in the energy norm: A - E^T A E is not positive definite");
+                        if (!is_spd(D)) {
+                            // plain aggregation with over_interp > 1 (its default): is the over-interpolation the cause?  The same
+                            // input with over_interp = 1 (same aggregates: the strength test is scale invariant) must contract.
+                            bool overint = false;
+                            if (h.kind == 0 && !(h.s.v == Q(1).v) && nl >= 3) {
+                                Hdr h1 = h; h1.s = Q(1); auto prm1 = params(h1, rp, t); AMG amg1(*h1.A.crs(), prm1);
+                                Dense B1(n, std::vector<Q>(n));
+                                for (long j = 0; j < n; ++j) { std::vector<Q> e(n, Q(0)); e[j] = Q(1); std::vector<Q> c = apply(amg1, e); for (long i = 0; i < n; ++i) B1[i][j] = c[i]; }
+                                if (amgcl_verif::access::levels(amg1).size() == nl && is_sym(B1) && is_spd(B1)) {
+                                    Dense E1 = dmul(B1, Ad, n); for (long i = 0; i < n; ++i) for (long j = 0; j < n; ++j) E1[i][j] = (i == j ? Q(1) : Q(0)) - E1[i][j];
+                                    Dense AE1 = dmul(Ad, E1, n), E1t = dtrans(E1, n), EAE1 = dmul(E1t, AE1, n), D1(n, std::vector<Q>(n));
+                                    for (long i = 0; i < n; ++i) for (long j = 0; j < n; ++j) D1[i][j] = Ad[i][j] - EAE1[i][j];
+                                    overint = is_spd(D1);
+                                }
+                            }
+                            if (overint) { r.fail("over-interpolation: B is symmetric positive definite but the stationary iteration is not a contraction in the energy norm (A - E^T A E is not positive definite) for plain aggregation with over_interp > 1 on " + std::to_string(nl) + " levels; the same input with over_interp = 1 contracts"); r.tag("over_interp_not_contracting"); }
+                            else r.fail("stationary iteration is not a contraction in the energy norm: A - E^T A E is not positive definite");
+                        }
                         r.tag("spd-certified");
                     }
                 }
@@ -156,12 +173,17 @@ static std::string make_line2(Rng &rng, const Opts &o, bool bmat) {
     if (bmat) h.A = gen_spd(rng, n, (int)rng.range(0, 3));
     static const std::vector<long> ces = { 0, 1, 2, 3, 5 }; static const std::vector<long> mls = { 1, 2, 3, 10, 10 };
     h.ce = rng.pick(ces); h.dc = rng.coin(3, 4); h.ml = rng.pick(mls); h.ar = rng.coin(); h.nt = 1;
-    h.s = h.kind == 0 ? Q(1 / over_interp_of_kind0) : Q(1);
+    h.s = pick_s(rng, h.kind);
     RelaxPrm rp; rp.rk = rng.range(0, 4); rp.damping = Q::frac(rng.range(2, 7), 8); rp.degree = rng.range(1, o.thorough() ? 3 : 2); rp.higher = Q(1); rp.lower = Q::frac(1, 32); rp.scale = rng.coin();
     long smax = o.thorough() ? 3 : 2;
     Tail t; t.npre = rng.range(1, smax); t.npost = rng.coin(2, 3) ? t.npre : rng.range(1, smax); t.ncycle = rng.range(1, 2); t.pre_cycles = rng.coin(1, 6) ? 0 : rng.range(1, 2);
     if (t.ncycle == 2 && t.pre_cycles == 2) t.pre_cycles = 1;     // keep the rational growth bounded
     if (bmat) { t.npost = t.npre; t.pre_cycles = rng.range(1, 2); }
+    if (bmat && rng.coin(1, 6)) {
+        // deep hierarchies: 2D grid with random weights, plain aggregation down to one unknown (4+ levels), V-cycle with one sweep
+        long m = rng.range(6, o.thorough() ? 8 : 7); h.kind = 0; h.A = gen_spd(rng, m * m, 1); h.ce = rng.range(1, 2); h.dc = 1; h.ml = 10; h.s = pick_s(rng, 0);
+        rp.rk = rng.range(0, 2); t.npre = t.npost = 1; t.ncycle = rng.coin(3, 4) ? 1 : 2; t.pre_cycles = 1;
+    }
     Result dummy = run(h, {}, false);    // records the transfer operators (damped Jacobi hierarchy: same P, R)
     Line l; l << (bmat ? "amg_bmat" : "amg_apply") << h.kind << h.s << h.nt << h.ce << h.dc << h.ml << h.ar << h.A << (long)g_rec.size();
     for (auto &pr : g_rec) { l << *pr.first; l << *pr.second; }
@@ -174,7 +196,7 @@ static std::string make_line2(Rng &rng, const Opts &o, bool bmat) {
 static void generate2(Rng &rng, const Opts &o, std::vector<std::string> &lines) {
     long N = o.cases > 0 ? o.cases : (o.thorough() ? 1200 : 120);
     for (long k = 0; k < N; ++k) lines.push_back(make_line2(rng, o, k % 4 == 3));
-    lines.push_back("amg_apply 0 2/3 1 2 1 10 0 1 1 1 0 1 0 7 1 1 1 1 4 1 1 1 1 1 1 1 1 0 0");    // unknown relaxation kind
+    lines.push_back("amg_apply 0 11184811/16777216 1 2 1 10 0 1 1 1 0 1 0 7 1 1 1 1 4 1 1 1 1 1 1 1 1 0 0");    // unknown relaxation kind
 }
 
 int main(int argc, char **argv) { return vh::harness_main(argc, argv, generate2, execute2); }
